@@ -59,6 +59,48 @@ func registerIntrinsics(e *Engine) {
 		e.res.Params[name] = int(int64(d.Val))
 		return d, true
 	}
+	// CopyN: dst[i] = src[i] for i < n (n symbolic), without forking on n.
+	I[nd+"CopyN"] = func(e *Engine, st *State, th *Thread, args []Value, call *ssa.CallCommon) (Value, bool) {
+		dst, src, n := args[0].(Slice), args[1].(Slice), args[2].(*smt.Term)
+		c := e.C
+		e.oblige(st, c.AndN(c.Sge(n, e.i64(0)), c.Ule(n, dst.Len), c.Ule(n, src.Len)), "assert", "CopyN bounds", "nd.CopyN: n within both slices")
+		max := dst.ArrLen
+		if dst.Len.IsConst() {
+			max = int(dst.Len.Val)
+		}
+		if src.Len.IsConst() && int(src.Len.Val) < max {
+			max = int(src.Len.Val)
+		}
+		if src.ArrLen < max {
+			max = src.ArrLen
+		}
+		u8 := types.Typ[types.Uint8]
+		for k := 0; k < max; k++ {
+			kk := e.i64(uint64(k))
+			in := c.Ult(kk, n)
+			if in.IsFalse() {
+				break
+			}
+			sv := e.load(st, e.elemPtr(src, kk), u8).(*smt.Term)
+			dp := e.elemPtr(dst, kk)
+			dv := e.load(st, dp, u8).(*smt.Term)
+			e.store(st, dp, u8, c.Ite(in, sv, dv))
+		}
+		return nil, true
+	}
+	I["encoding/json.Marshal"] = func(e *Engine, st *State, th *Thread, args []Value, call *ssa.CallCommon) (Value, bool) {
+		iv := args[0].(Iface)
+		if iv.T != nil {
+			if pt, ok := iv.T.Underlying().(*types.Pointer); ok {
+				if stt, ok := pt.Elem().Underlying().(*types.Struct); ok && stt.NumFields() == 0 {
+					sl := e.strToSlice(st, Str{IsConst: true, S: "{}"})
+					return Tuple{[]Value{sl, Iface{}}}, true
+				}
+			}
+		}
+		e.unsupported("json.Marshal of %v", iv.T)
+		return nil, true
+	}
 	I[nd+"Symbolic"] = func(e *Engine, st *State, th *Thread, args []Value, call *ssa.CallCommon) (Value, bool) {
 		return e.C.True, true
 	}
